@@ -7,7 +7,7 @@ from lib.pyx import pyexn
 ID = "C20"
 GENERATORS = ["devinfo"]
 PROP_FILE = "C20"
-CASE_DEPS = ["theories/CorrDevInfo.vo", "Generated/GenDevInfo.vo"]
+CASE_DEPS = ["theories/CorrDevInfo.vo", "theories/DevInfoMulti.vo", "Generated/GenDevInfo.vo"]
 RULE = ("one case = an identity (random subset of object ids 0-6 / 0x80-0xFF, value lengths concentrated at 0, 1, "
         "120-124, 243-245, a few above), a read code and a start object id, and the WHOLE exchange history observed "
         "while following more-follows (page limit = populated objects + 3): request bytes -> real ServerDecoder -> "
@@ -35,6 +35,8 @@ IMPORTS = ("From PM.theories Require Import Base Expr DevInfo CorrDevInfo.\n"
 F_245 = "F-C20-245-byte-object"
 F_CODE0 = "F-C20-read-code-0"
 F_TEXT = "F-C20-non-ascii-text"
+F_MULTI = "F-C20-multi-item-resend"
+IMPORTS_M = IMPORTS.replace("CorrDevInfo.", "DevInfoMulti CorrDevInfo.")
 
 VALID_IDS = list(range(0, 7)) + list(range(0x80, 0x100))
 
@@ -77,6 +79,8 @@ def exchange(code, oid, direct):
         crsp = ClientDecoder().decode(pdu)
     except Exception as e:  # noqa: BLE001 — the exception class is the observation
         return ("raise", pyexn(e))
+    if crsp is None:            # ClientDecoder.decode logs any exception of the response decoder and returns None
+        return ("raise", "OtherExc")
     if type(crsp).__name__ == "ExceptionResponse":
         return ("exc", len(pdu), crsp.function_code, crsp.exception_code)
     info = []
@@ -253,7 +257,98 @@ def suite_starts(tier):
 
 
 def suites(tier):
-    return [suite_chain(tier), suite_starts(tier)]
+    return [suite_chain(tier), suite_starts(tier), suite_multi(tier)]
+
+
+# ----------------------------------------------------------------------------- multi-item and text values
+
+def item_term(x):
+    wire = x.encode() if isinstance(x, str) else bytes(x)
+    return "{| it_len := %s; it_wire := %s |}" % (z(len(x)), bterm(wire))
+
+
+def mval_term(v):
+    if isinstance(v, list):
+        return "(MMany %s)" % lst(item_term(x) for x in v)
+    return "(MOne %s)" % item_term(v)
+
+
+def is_non_ascii(v):
+    xs = v if isinstance(v, list) else [v]
+    return any(isinstance(x, str) and any(ord(c) > 127 for c in x) for x in xs)
+
+
+def mchain_case(objs, code, oid, label, limit=None):
+    """objs: [(id, bytes | str | [bytes | str, ...])]"""
+    mcb = reset_identity()
+    for k, v in objs:
+        mcb.Identity[k] = list(v) if isinstance(v, list) else v
+    nitems = sum(len(v) if isinstance(v, list) else (1 if v else 0) for _, v in objs)
+    limit = limit if limit is not None else nitems + 3
+    steps, end = follow(code, oid, limit)
+    reset_identity()
+    lists = {k for k, v in objs if isinstance(v, list)}
+    # symptom of the multi-item defect: a response that already carries an item of list k and
+    # names k as the next object id
+    split = any(o[0] == "resp" and o[5] == 0xFF and o[6] in lists and any(k == o[6] for k, _ in o[8]) for o in steps)
+    # ... or a list that alone is larger than a page: the same items forever
+    loop = end == "ELimit" and any(o[0] == "resp" and o[6] in lists for o in steps)
+    term = "{| mc_ids := %s; mc_code := %s; mc_oid := %s; mc_limit := %s; mc_obs := %s; mc_end := %s |}" % (
+        lst("(%s, %s)" % (z(k), mval_term(v)) for k, v in objs), z(code), z(oid), nat(limit),
+        lst(obs_term(o) for o in steps), end)
+    desc = {"identity": [[k, ([len(x) for x in v] if isinstance(v, list) else len(v)),
+                          "list" if isinstance(v, list) else type(v).__name__] for k, v in objs],
+            "code": code, "oid": oid, "limit": limit, "end": end, "pages": len(steps), "multi": True,
+            "non_ascii": any(is_non_ascii(v) for _, v in objs), "split_list": bool(split or loop),
+            "history": [[o[0]] + [x for x in o[1:8]] if o[0] == "resp" else list(o) for o in steps][:8]}
+    return Case(term, desc, kind=label, nontrivial=any(o[0] == "resp" and o[7] > 0 for o in steps))
+
+
+def gen_mvalue(r, k):
+    def one(n, kind):
+        if kind == "bytes":
+            return gen_value(r, k, n)
+        if kind == "ascii":
+            return chr(65 + (k + n) % 26) * n
+        return "\u00e9" * n
+    t = r.random()
+    if t < 0.5:
+        return one(r.choice([0, 1, 3, 50, 100, 120, 124, 200, 243, 244]), "bytes")
+    if t < 0.65:
+        return one(r.choice([1, 5, 100, 123, 244]), "ascii")
+    if t < 0.72:
+        return one(r.choice([1, 2, 60, 122, 123, 200, 244]), "non-ascii")
+    n = r.choice([0, 1, 2, 2, 3, 4])
+    return [one(r.choice([0, 1, 1, 40, 80, 100, 120]), r.choice(["bytes", "bytes", "ascii"])) for _ in range(n)]
+
+
+def suite_multi(tier):
+    r = common.rng("C20.multi")
+    V, A, B, Cc = b"V" * 100, b"a" * 100, b"b" * 100, b"c" * 100
+    fixed = [
+        ([(0, V), (0x80, [A, B])], 3),                    # list split after its first item: re-sent from the start
+        ([(0x80, [A, B, Cc])], 3),                         # list larger than a page: never ends
+        ([(0, V), (1, [A, B])], 1), ([(0, V), (1, [A, B])], 2),
+        ([(0, b"V"), (1, []), (2, [b"", b"x"]), (3, [b""])], 2),
+        ([(0, [b"x", "yy"]), (1, "Product")], 1),
+        ([(0, "\u00e9" * 200)], 1), ([(0, "\u00e9" * 100), (1, b"p" * 40)], 2), ([(2, "\u00fc")], 1),
+        ([(0, "Vendor"), (1, "PC"), (2, "1.0")], 1),
+        ([(0, [A, B]), (1, [b"s"] * 5)], 2),
+    ]
+    cases = []
+    for objs, code in fixed:
+        for c in sorted({code, 4}):
+            for oid in sorted({0} | {k for k, _ in objs}):
+                cases.append(mchain_case(objs, c, oid, "multi-fixed"))
+    for _ in range(60 if tier == "quick" else 600):
+        ids = sorted(r.sample(VALID_IDS, r.choice([1, 2, 3, 4, 6])) if r.random() < 0.5
+                     else r.sample(range(0, 7), r.choice([1, 2, 3, 5])))
+        objs = [(k, gen_mvalue(r, k)) for k in ids]
+        for code in (1, 2, 3, 4):
+            starts = sorted({0} | set(r.sample(ids, min(2, len(ids)))))
+            for oid in starts:
+                cases.append(mchain_case(objs, code, oid, "multi-random"))
+    return Suite("multi", IMPORTS_M, "chk_mchain code", cases, shard=150)
 
 
 # ----------------------------------------------------------------------------- python-side check: text values
@@ -302,6 +397,12 @@ def extra_checks(tier):
 def classify(suite, desc):
     if suite == "text_values":
         return F_TEXT if desc.get("text") == "non-ascii" else None
+    if desc.get("multi"):
+        if desc.get("non_ascii"):
+            return F_TEXT
+        if desc.get("split_list"):
+            return F_MULTI
+        return None
     code, oid = desc.get("code"), desc.get("oid")
     if code == 0 and 0 <= oid <= 255:
         return F_CODE0
@@ -352,6 +453,16 @@ def replay_finding(f):
         steps, end = follow(w["code"], w["oid"], w.get("limit", 6))
         reset_identity()
         return end == "ELimit"
+    if f["id"] == F_MULTI:
+        objs = [(k, [bytes([97 + i]) * n for i, n in enumerate(v)] if isinstance(v, list) else b"V" * v) for k, v in w["identity"]]
+        mcb = reset_identity()
+        for k, v in objs:
+            mcb.Identity[k] = v
+        steps, end = follow(w["code"], w["oid"], 6)
+        reset_identity()
+        got = [(k, x) for o in steps if o[0] == "resp" for k, v in o[8] for x in (v if isinstance(v, list) else [v])]
+        want = [(k, x) for k, v in objs for x in (v if isinstance(v, list) else [v])]
+        return end != "EDone" or got != want
     if f["id"] == F_TEXT:
         plen, got = text_exchange("\u00e9" * w["chars"], w.get("code", 1))
         return not (plen <= 253 and got == ("\u00e9" * w["chars"]).encode())
